@@ -131,3 +131,11 @@ def rules(ctx):
     for o in ctx.obligations[before:]:
         o.id = o.id.replace("C01/R3.", "C01/R7.")
     flow_arcs(ctx)
+    # travel times used by the timing rule are the input's own matrix entries (shared with C17)
+    from .C17 import loader_subset, getters
+    loader_subset(ctx, ["dead-head-matrix", "DeadHeadTrip-new", "Locations-new", "create_service_trip.arg-vehicle_type",
+                        "create_service_trip.arg-origin", "create_service_trip.arg-destination", "create_service_trip.arg-departure",
+                        "create_service_trip.arg-arrival", "create_service_trip-positional", "Shunting", "shunting", "forbid"])
+    before = len(ctx.obligations)
+    getters(ctx)
+    ctx.obligations[before:] = [o for o in ctx.obligations[before:] if any(k in o.id for k in ("travel_time", "dead-head-direction", "start_time", "end_time", "start_location", "end_location", "vehicle_type"))]
